@@ -201,6 +201,16 @@ pub fn cases_of_uni(u: i32, tier: &str, seed: u64, emit: &mut dyn FnMut(String, 
             let m = msp(&mut rng);
             emit(format!("u{}-{}-zero", u, ct), &c, symprec, m);
         }
+        // weakly canted moments (perturbation between 6 mag_symprec and 0.3 sqrt(mag_symprec)): the generating group is only
+        // an upper bound here, so the cases are judged by the truth-independent clauses alone (checks/magpipe.py)
+        let cant = if thorough { !huge && (ci == 0 || ci == 1) } else { s3 % 2 == 0 && !huge };
+        if cant {
+            let mut crng = rng.fork();
+            let m = *crng.pick(&[1e-5, 1e-4]);
+            let lvl = crng.range(0, 2) as u32;
+            let c = redescribe(&base, &mut crng, lvl, None).cant_moments(&mut crng, 6.0 * m, 0.3 * m.sqrt());
+            emit(format!("u{}-{}-cant", u, ct), &c, symprec, Some(m));
+        }
         if sup {
             let idx = rng.range(2, if thorough { 4 } else { 3 }) as i32;
             let all = hnfs_of_index(idx);
